@@ -12,7 +12,7 @@ for id in "$@"; do for k in 1 2; do
   python3 - <<PY
 import json
 a=json.load(open('$SRC/$id/meta$k.json')); c=json.load(open('$D/confirm.json'))
-m={"property":"$id","round":2,"summary":a.get("summary"),"needs":a.get("needs"),"files":a.get("files"),"confirmed_by":"tools/mutants.py confirm (scratch copy of /repo HEAD: demo passes without the change; with it the unedited suite reports 290 passed and the demo fails)","confirm":c}
+m={"property":"$id","round":int('${ROUND:-2}'),"summary":a.get("summary"),"needs":a.get("needs"),"files":a.get("files"),"confirmed_by":"tools/mutants.py confirm (scratch copy of /repo HEAD: demo passes without the change; with it the unedited suite reports 290 passed and the demo fails)","confirm":c}
 json.dump(m,open('$D/meta.json','w'),indent=1)
 print('$id/$n confirmed=',c['confirmed'])
 PY
